@@ -161,6 +161,7 @@ pub fn world_for(mode: Mode, rng: &mut Prng) -> (WorldCfg, AmtClass) {
         native_amt,
         cw20_amt,
         nfts_per_user,
+        sloppy20: matches!(mode, Mode::BadInput) && rng.chance(1, 2),
         lenient_bank: matches!(mode, Mode::BadInput) || rng.chance(1, 6),
         start_ns: start_s * 1_000_000_000 + nanos,
         start_height: 1000 + rng.below(1_000_000),
@@ -345,43 +346,105 @@ impl Gen {
     }
 
     fn bad_ask(&mut self, o: &Obs, names: &Names, seller: &str) -> AskSpec {
+        // start from a well-formed ask with a few entries of each kind, then break it in one place
         let mut s = self.random_ask(o, names, seller);
-        match self.rng.below(7) {
+        let want_n = self.rng.range(1, 3) as usize;
+        while s.native.len() < want_n {
+            let d = self.rng.pick(&names.natives).clone();
+            if !s.native.iter().any(|(x, _)| *x == d) {
+                s.native.push((d, self.rng.range(1, 900) as u128));
+            } else {
+                break;
+            }
+        }
+        let mut toks: Vec<String> = names.cw20s.clone();
+        toks.push("tokenxx".into());
+        toks.push("tokenyy".into());
+        let want_c = self.rng.range(0, 3) as usize;
+        while s.cw20.len() < want_c {
+            let t = self.rng.pick(&toks).clone();
+            if !s.cw20.iter().any(|(x, _)| *x == t) {
+                s.cw20.push((t, self.rng.range(1, 900) as u128));
+            } else {
+                break;
+            }
+        }
+        let want_f = self.rng.range(0, 4) as usize;
+        let mut guard = 0;
+        while s.nfts.len() < want_f && guard < 12 {
+            guard += 1;
+            let c = names.colls[self.rng.below_usize(names.colls.len().min(2))].clone();
+            let t = format!("{}", self.rng.range(1, 9));
+            if !s.nfts.contains(&(c.clone(), t.clone())) {
+                s.nfts.push((c, t));
+            }
+        }
+        self.permute_ask(&mut s);
+        match self.rng.below(9) {
             0 => AskSpec::default(),
             1 => {
-                s.native.push(("ujunox".into(), 0));
+                // zero native amount at a random position
+                let pos = self.rng.below_usize(s.native.len() + 1);
+                s.native.insert(pos, ("uzero".into(), 0));
                 s
             }
             2 => {
-                if let Some(x) = s.native.first().cloned() {
-                    let pos = self.rng.below_usize(s.native.len() + 1);
-                    s.native.insert(pos, x);
-                } else {
+                // duplicate denom at ANY position (possibly with a different amount)
+                if s.native.is_empty() {
                     s.native.push(("uatom".into(), 5));
-                    s.native.push(("uatom".into(), 6));
                 }
+                let mut x = self.rng.pick(&s.native).clone();
+                if self.rng.chance(1, 2) {
+                    x.1 += 1;
+                }
+                let pos = self.rng.below_usize(s.native.len() + 1);
+                s.native.insert(pos, x);
                 s
             }
             3 => {
-                let t = names.cw20s[0].clone();
-                s.cw20 = vec![(t.clone(), 5), (t, 5)];
+                if s.cw20.is_empty() {
+                    s.cw20.push((names.cw20s[0].clone(), 5));
+                }
+                let mut x = self.rng.pick(&s.cw20).clone();
+                if self.rng.chance(1, 2) {
+                    x.1 += 1;
+                }
+                let pos = self.rng.below_usize(s.cw20.len() + 1);
+                s.cw20.insert(pos, x);
                 s
             }
-            4 => {
-                let n = (names.colls[0].clone(), "1".to_string());
-                s.nfts = vec![n.clone(), n];
+            4 | 5 => {
+                // the same NFT twice, anywhere in the list (adjacent or with other tokens in between)
+                if s.nfts.is_empty() {
+                    s.nfts.push((names.colls[0].clone(), "1".to_string()));
+                }
+                let x = self.rng.pick(&s.nfts).clone();
+                let pos = self.rng.below_usize(s.nfts.len() + 1);
+                s.nfts.insert(pos, x);
                 s
             }
-            5 => {
+            6 => {
                 // 26 items
                 s.native.clear();
+                s.cw20.clear();
+                s.nfts.clear();
                 for i in 0..26 {
                     s.native.push((format!("udenom{i}"), 1 + i as u128));
                 }
                 s
             }
+            7 => {
+                let pos = self.rng.below_usize(s.cw20.len() + 1);
+                s.cw20.insert(pos, (names.cw20s[0].clone() + "z", 0));
+                s
+            }
             _ => {
-                s.cw20.push((names.cw20s[0].clone(), 0));
+                // 26 items of mixed kinds
+                let mut i = 0;
+                while s.len() < 26 {
+                    s.nfts.push((names.colls[0].clone(), format!("x{i}")));
+                    i += 1;
+                }
                 s
             }
         }
@@ -788,7 +851,37 @@ impl Gen {
 
     /// the careless collection lets its owner send one token id twice: into a fresh record, then
     /// again into the same record (must be refused) or into another one
+    /// the careless token: deposits of zero (must be refused by the market itself) and of positive amounts
+    fn mv_sloppy20(&mut self, o: &Obs, names: &Names) -> Option<Op> {
+        let ti = names.sloppy20.iter().position(|s| *s)?;
+        let tok = names.cw20s[ti].clone();
+        let m = &names.market;
+        let who = self.user(names);
+        let amount: u128 = if self.rng.chance(1, 2) { 0 } else { self.rng.range(1, 500) as u128 };
+        self.count("sloppy20_send");
+        let inner = match self.rng.below(4) {
+            0 => msgs::inner_create_bucket_cw20(self.fresh_bucket_id(o)),
+            1 => {
+                let ask = self.random_ask(o, names, &who);
+                msgs::inner_create_listing_cw20(self.fresh_listing_id(o), &ask, None)
+            }
+            2 => {
+                let mine: Vec<&LRec> = o.listings.iter().filter(|l| l.status == St::Preparing).collect();
+                let l = *self.rng.pick_opt(&mine)?;
+                return Some(Op::tx(&l.key_owner, &tok, msgs::cw20_send(m, amount, &msgs::inner_add_to_listing_cw20(l.id)), vec![]));
+            }
+            _ => {
+                let b = self.rng.pick_opt(&o.buckets)?;
+                return Some(Op::tx(&b.key_owner, &tok, msgs::cw20_send(m, amount, &msgs::inner_add_to_bucket_cw20(b.key_id)), vec![]));
+            }
+        };
+        Some(Op::tx(&who, &tok, msgs::cw20_send(m, amount, &inner), vec![]))
+    }
+
     fn mv_sloppy(&mut self, o: &Obs, names: &Names) -> Option<Op> {
+        if names.sloppy20.iter().any(|s| *s) && (self.rng.chance(1, 2) || !names.sloppy.iter().any(|s| *s)) {
+            return self.mv_sloppy20(o, names);
+        }
         let ci = names.sloppy.iter().position(|s| *s)?;
         let coll = names.colls[ci].clone();
         let m = &names.market;
